@@ -85,6 +85,36 @@ def run(ctx):
                 for s in agg_blocks(bb_, re.escape(en) + "$", v):
                     ok = ok and doomed(bb_, s)
             ctx.ob(f"kernel-rejection|{en.split('::')[-1]}::{v}", ok, f"constructed in {[f.split('::')[-1] for f in fns][:3]}, every site doomed: {ok}", F.fns[fns[0]].loc() if fns else "")
+    ctx.rule("T2 per-element: in OpenedSubstate::diff and SubstateDiff::from_new_substate the loop over the value's owned nodes reaches its next "
+             "iteration (or Ok) only through the `insert(own) == true` edge of a duplicate test whose other arm is doomed — every listed own is "
+             "tested, not only the newly added ones")
+    for n in (CF + "OpenedSubstate::diff", CF + "SubstateDiff::from_new_substate"):
+        short = n.rsplit("::", 2)[1] + "::" + n.rsplit("::", 1)[1]
+        if not ctx.anchor(n):
+            continue
+        b = ctx.body(n)
+        loops = []
+        for bb, ed, ow, si in b.enum_guards(r"core::option::Option$", lambda a: a.kind == "call" and a.what.endswith("Iterator>::next")):
+            nx = [a for a in si["atoms"] if a.kind == "call" and a.what.endswith("Iterator>::next")]
+            if not nx or "Some" not in ed:
+                continue
+            recv = b.term(nx[0].bb)["args"][0]
+            src = origin_names(b, recv)
+            # the iterator comes from into_iter(owned_nodes())
+            ok_src = False
+            for a in b.origins(recv):
+                if a.kind == "call" and a.what.endswith("::into_iter"):
+                    ok_src = any(x.endswith("::owned_nodes") for x in origin_names(b, b.term(a.bb)["args"][0]))
+            if ok_src:
+                loops.append((nx[0].bb, ed["Some"]))
+        ctx.ob(f"{short}|owned-nodes-loop", len(loops) == 1, f"{len(loops)} loop(s) over value.owned_nodes()", b.loc())
+        pass_e = [(bb, tru) for bb, tru, fal, si in b.call_bool_guards(r"IndexSet(<[^>]*>)?::insert$") if fal is not None and doomed(b, fal)]
+        for head, some in loops[:1]:
+            region = b.reach((some,), blocked_edges=pass_e)
+            bad = head in region or bool(region & set(b.ok_exits()))
+            ctx.ob(f"{short}|every-own-passes-the-duplicate-test", bool(pass_e) and not bad,
+                   "each iteration continues only through the duplicate test's `newly inserted` edge" if pass_e and not bad else
+                   "an owned node can be accepted WITHOUT the duplicate test (a path from the loop body back to the loop head / Ok avoids it)", b.loc(head))
     n = SIO + "SubstateIO::move_node_from_heap_to_store"
     if ctx.anchor(n):
         b = ctx.body(n)
